@@ -5,9 +5,9 @@
   (Model/BlobCache.lean) inside the oracle executable, so that the oracle speaks the real
   digests of the real cache.  No theorem depends on any property of this function: every
   C08 theorem is stated for an arbitrary `hash : Bytes → Digest`.
-  Self-test: `Properties/C08.lean` checks the FIPS vectors for "" and "abc" by `decide`-free `rfl`-style
-  evaluation (`example … := by decide +kernel`), and the Go driver compares it with crypto/sha256 on
-  every digest of every generated case (any mismatch is an L1 disagreement).
+  Tie: the Go driver's digests come from crypto/sha256; the oracle must reproduce them in every `dig:` result of
+  Import / Resolve and in every hash-dependent outcome (ok vs "changed underfoot"), so any divergence of this
+  function from SHA-256 shows up as an L1 disagreement.  (FIPS vectors "", "abc", 100×"a" checked by #eval.)
 -/
 import OllamaVerif.Model.Bytes
 namespace OllamaVerif.Sha256
